@@ -293,7 +293,13 @@ fn pipe_outcome(stream: &[u8], r: &Run) -> (Vec<Vec<u8>>, Terminal) {
 }
 
 /// The same run through an unhooked `Connection` over a real loopback TCP connection.
-fn tcp_outcome(rt: &tokio::runtime::Runtime, stream: &[u8], r: &Run) -> Result<(Vec<Vec<u8>>, Terminal), String> {
+/// `expect`: what the in-memory run of the same stream gave. It only steers how long this run waits
+/// (a slow machine must not turn into a different outcome): a terminal ending is waited for up to
+/// 5 s; "waiting" is concluded once as many frames as expected have arrived plus a grace period,
+/// or after 5 s.
+fn tcp_outcome(rt: &tokio::runtime::Runtime, stream: &[u8], r: &Run, expect: &(Vec<Vec<u8>>, Terminal)) -> Result<(Vec<Vec<u8>>, Terminal), String> {
+    let expect_terminal = !matches!(expect.1, Terminal::Waiting);
+    let expect_frames = expect.0.len();
     use tokio::io::AsyncWriteExt;
     let end = r.eof_at.unwrap_or(stream.len());
     let mut bounds: Vec<usize> = r.cuts.iter().cloned().filter(|c| *c > 0 && *c < end).collect();
@@ -375,9 +381,14 @@ fn tcp_outcome(rt: &tokio::runtime::Runtime, stream: &[u8], r: &Run) -> Result<(
                 s = &mut keep, if !writer_done => {
                     writer_done = true;
                     held_socket = s.ok().flatten();
-                    deadline = tokio::time::Instant::now() + std::time::Duration::from_millis(150);
+                    deadline = tokio::time::Instant::now() + std::time::Duration::from_secs(5);
                 }
                 _ = tokio::time::sleep_until(deadline) => {
+                    terminal = Terminal::Waiting;
+                    break;
+                }
+                _ = tokio::time::sleep(std::time::Duration::from_millis(150)), if writer_done && !expect_terminal && frames.len() >= expect_frames => {
+                    // everything expected has arrived and nothing more came for 150 ms
                     terminal = Terminal::Waiting;
                     break;
                 }
@@ -420,7 +431,7 @@ fn unseamed_part(ctx: &Ctx) -> (u64, u64) {
             let a = pipe_outcome(&stream, run);
             // a panic of the subject inside the loopback run is an outcome like any other (the
             // in-memory run reports it as Terminal::Err("panic: ..")), never an engine failure
-            let b = match core::catch(|| tcp_outcome(rt, &stream, run)) {
+            let b = match core::catch(|| tcp_outcome(rt, &stream, run, &a)) {
                 Ok(b) => b,
                 Err(p) => {
                     if matches!(&a.1, Terminal::Err(e) if e.starts_with("panic")) {
